@@ -145,6 +145,7 @@ class Engine:
         self.nfork = 0
         self._str_seen = set()
         self.obligations = []
+        self.ineq_lemmas = []
         self.decided = {}     # atoms already decided on this path (the path condition only grows)
 
     # -- variables ----------------------------------------------------------------------
@@ -179,7 +180,7 @@ class Engine:
         linearised path solver -- valid consequences, so feasibility stays an over-approximation but loses spurious
         paths such as 'all normalised weights sum to something other than one'"""
         hyps = [(i, h) for i, (h, t) in enumerate(zip(self.hyps, self.hyp_tags)) if t in self.STRENGTHEN_TAGS]
-        if not hyps:
+        if not hyps and not self.ineq_lemmas:
             return
         frontier = set(m for m in monos if m)
         for _ in range(rounds):
@@ -202,7 +203,29 @@ class Engine:
             frontier = new
             if not frontier:
                 break
+        # inequality lemmas p <= 0 may be multiplied by even-power monomials (squares are >= 0)
+        if self.ineq_lemmas:
+            for g in [m for m in monos if m]:
+                for li, p in enumerate(self.ineq_lemmas):
+                    for m in p:
+                        q = mono_div(m, g)
+                        if q is None or not q or any(e % 2 for _, e in q) or mono_deg(q) > maxdeg:
+                            continue
+                        key = ('L', li, q)
+                        if key in self._str_seen:
+                            continue
+                        self._str_seen.add(key)
+                        self.rsolver.add(self.lin.rexpr(pmulmono(p, q)) <= 0)
+                        self.rmodel = None
         self._flush_nonneg()
+
+    def add_ineq_lemma(self, p):
+        """register a valid fact  p <= 0  (polynomial dict) for use with even multipliers"""
+        self.ineq_lemmas.append(p)
+        self.atoms.append(Atom(p, '<='))
+        self.rsolver.add(Lin.rel(self.lin.rexpr(p), '<='))
+        self._flush_nonneg()
+        self.rmodel = None
 
     def _encode(self, a):
         if is_int_poly(a.p):
